@@ -25,7 +25,8 @@ SPEC = {
                "activity:ValidateBlock": 50, "activity:ProposeBlock": 100, "activity:ForCheck+writes+Precommit+Commit": 100,
                "activity:ValidateSubChain(ForCheckWithOverwrite)": 100, "activity:Readonly-queries": 100, "historical_reads": 5000,
                "pruned_height_reads": 500, "reads_after_reorg": 40,
-               "wasm_deploys_in_discarded_proposals": 50, "held_view_reads": 400, "fresh_view_root_checks": 700},
+               "wasm_deploys_in_discarded_proposals": 50, "held_view_reads": 400, "fresh_view_root_checks": 700,
+               "snapshot_exports": 80, "snapshot_exports_of_older_heights": 50},
     "parallel": 16,
     "assumptions": ["chain part: ProposeBlock may write its tx-applying log / black list (node database, not canonical state): only state-tree keys are compared for it", "reference store = tm-db MemDB pre-loaded with the base contents",
                     "no writes while an iterator is open (tm-db MemDB iterators hold a read lock)"],
